@@ -184,7 +184,7 @@ void h_iter(void) {
 }
 void h_hash_cmp(void) {
   arbitrary_tuple();
-  uint64_t h = 0; for (int j = 0; j < N; j++) h ^= __CPROVER_uninterpreted_cvH(in_v[j]);
+  uint64_t h = 0; for (int j = 0; j < N; j++) h ^= cv_hash_of(in_v[j]);
   ASSERT(Tuple_Hash(t) == h, "[C10] the hash of a Tuple is the XOR of its items' hashes (equal to an Array's or List's with equal elements)");
   int want = 0;
   for (int j = 0; j < N || j < M; j++) {
